@@ -35,8 +35,8 @@ type freshReq struct {
 
 type freshReply struct {
 	evalResult
-	Coq     string `json:"coq,omitempty"`
-	NewProc bool   `json:"newenv"`
+	Coq     string            `json:"coq,omitempty"`
+	NewProc bool              `json:"newenv"`
 	World   map[string]string `json:"world,omitempty"`
 }
 
@@ -103,18 +103,20 @@ func cmdFresh() {
 			panic(err)
 		}
 		// as web/wasm/executor.go: IO is injected into the constant scope before every execution
+		// (a NEW output buffer per execution, as the executor makes: output that a later execution writes into an earlier
+		// execution's buffer is lost to it)
 		for i, h := range q.History {
-			out.Reset()
 			sin := ""
 			if i < len(q.Stdins) {
 				sin = q.Stdins[i]
 			}
-			global.InjectIO(strings.NewReader(sin), &out)
-			evalIn(h, object.NewEnclosedEnv(global), &out)
+			hout := &bytes.Buffer{}
+			global.InjectIO(strings.NewReader(sin), hout)
+			evalIn(h, object.NewEnclosedEnv(global), hout)
 		}
-		out.Reset()
-		global.InjectIO(strings.NewReader(q.Stdin), &out)
-		r := evalIn(q.Prog, object.NewEnclosedEnv(global), &out)
+		pout := &bytes.Buffer{}
+		global.InjectIO(strings.NewReader(q.Stdin), pout)
+		r := evalIn(q.Prog, object.NewEnclosedEnv(global), pout)
 		rep := freshReply{evalResult: r}
 		if q.Fingerprint {
 			rep.World = worldFingerprint(global)
@@ -131,6 +133,7 @@ func cmdFresh() {
 type runtestReq struct {
 	Files [][]string `json:"files"`
 	Dir   string     `json:"dir"`
+	Mode  string     `json:"mode"` // "" = runscript.RunTest on the directory; "file" = run the first file as `pangaea <file>` does
 }
 
 func cmdRuntest() {
@@ -150,7 +153,18 @@ func cmdRuntest() {
 		oldErr := os.Stderr
 		rp, wp, _ := os.Pipe()
 		os.Stderr = wp
-		code := runscript.RunTest(q.Dir, strings.NewReader(""), &out)
+		var code int
+		if q.Mode == "file" {
+			// what `pangaea <file>` does: runscript.ReadFile, then RunSource on the text it returned
+			path := filepath.Join(q.Dir, q.Files[0][0])
+			src, rc := runscript.ReadFile(path)
+			code = rc
+			if rc == 0 {
+				code = runscript.RunSource(src, path, strings.NewReader(""), &out)
+			}
+		} else {
+			code = runscript.RunTest(q.Dir, strings.NewReader(""), &out)
+		}
 		wp.Close()
 		os.Stderr = oldErr
 		var errb bytes.Buffer
